@@ -34,11 +34,31 @@ Section Construct.
   Definition mk_axis (v : axis3 T) : axis3 T :=
     let n := norm3 v in (ax_x v / n, ax_y v / n, ax_z v / n).
 
+  (* Axis(...) as a user-facing constructor (as repaired): zero and non-finite vectors are refused,
+     vectors whose norm under- or overflows are scaled by their largest component first *)
+  Definition all_finite (v : axis3 T) : bool :=
+    nisfinite N (ax_x v) && nisfinite N (ax_y v) && nisfinite N (ax_z v).
+  Definition max3abs (v : axis3 T) : T :=
+    nmax N (nmax N (nabs N (ax_x v)) (nabs N (ax_y v))) (nabs N (ax_z v)).
+  Definition mk_axis_checked (v : axis3 T) : result (axis3 T) :=
+    let n := norm3 v in
+    if neqb N n (nofZ N 0) || negb (nisfinite N n) then
+      let s := max3abs v in
+      if neqb N s (nofZ N 0) || negb (all_finite v) then Err EValue
+      else Ok (mk_axis (ax_x v / s, ax_y v / s, ax_z v / s))
+    else Ok (mk_axis v).
+
   Definition neg_axis (v : axis3 T) : axis3 T := (- ax_x v, - ax_y v, - ax_z v).
 
   (* BlochSphereRotation(qubit, axis (raw triple), angle, phase) *)
   Definition mk_bsr (q : Z) (v : axis3 T) (angle phase : T) : gate T :=
     BSR q (mk_axis v) (normalize_angle angle) (normalize_angle phase).
+
+  Definition mk_bsr_checked (q : Z) (v : axis3 T) (angle phase : T) : result (gate T) :=
+    match mk_axis_checked v with
+    | Err e => Err e
+    | Ok ax => Ok (BSR q ax (normalize_angle angle) (normalize_angle phase))
+    end.
 
   (* the same constructor called with an Axis object: the axis is taken as is *)
   Definition mk_bsr_ax (q : Z) (ax : axis3 T) (angle phase : T) : gate T :=
